@@ -179,8 +179,8 @@ theorem xqFinishPre_hold (i : Nat) (c : Ctx) (cli : XqCli) (srv : Svc) (h : Hold
      simp only [hne, Bool.false_eq_true, if_false] at this
      simp_all)
 
-theorem setAccount_ne_nil (stamp : Bytes) (h : stamp.head? ≠ some 32) (hne : stamp ≠ []) :
-    (setAccount stamp).isEmpty = false := by
+theorem setAccount_ne_nil (lim : Limits) (hl : 0 < lim.account) (stamp : Bytes) (h : stamp.head? ≠ some 32) (hne : stamp ≠ []) :
+    (setAccount lim stamp).isEmpty = false := by
   unfold setAccount
   cases stamp with
   | nil => exact absurd rfl hne
@@ -189,6 +189,7 @@ theorem setAccount_ne_nil (stamp : Bytes) (h : stamp.head? ≠ some 32) (hne : s
       have : x ≠ 32 := fun e => h (by simp [e])
       simp [this]
     simp [List.takeWhile, hx]
+    omega
 
 theorem okStamp_some {rep stamp : Bytes} (h : okStamp rep = some (some stamp)) :
     stamp.head? ≠ some 32 ∧ stamp ≠ [] := by
@@ -224,10 +225,10 @@ theorem okStamp_some {rep stamp : Bytes} (h : okStamp rep = some (some stamp)) :
   · simp only [hpre, Bool.false_eq_true, if_false] at h; cases h
 
 /-- `OK <account>` from a login-capable service keeps `holds` in step -/
-theorem xqVouch_hold (c : Ctx) (cli : XqCli) (stamp : Bytes) (h : HoldPair c.req cli)
+theorem xqVouch_hold (c : Ctx) (cli : XqCli) (stamp : Bytes) (h : HoldPair c.req cli) (hl : 0 < c.lim.account)
     (hs : stamp.head? ≠ some 32 ∧ stamp ≠ []) : HoldPair (xqVouch c cli stamp).req cli := by
   obtain ⟨h1, h2⟩ := h
-  have hacc := setAccount_ne_nil stamp hs.1 hs.2
+  have hacc := setAccount_ne_nil c.lim hl stamp hs.1 hs.2
   unfold xqVouch HoldPair
   dsimp only
   cases hb : cli.modeBang <;> cases he : c.req.account.isEmpty <;> cases hx : cli.modeX <;>
@@ -285,7 +286,7 @@ theorem HoldPair.congr {r : Req} {cli cli' : XqCli} (h : HoldPair r cli)
   unfold HoldPair at *; rw [hb, hr]; exact h
 
 theorem xqReply_holdOut (st : Static) (c c' : Ctx) (svc : Bytes) (reply : Option Bytes)
-    (hi : HoldInv c.req) (h : xqReply st c svc reply = .ok c') : HoldOut c' := by
+    (hi : HoldInv c.req) (hl : 0 < c.lim.account) (h : xqReply st c svc reply = .ok c') : HoldOut c' := by
   unfold xqReply at h
   split at h
   · simp only [pure, Except.pure, Except.ok.injEq] at h; subst h; exact Or.inr hi
@@ -306,7 +307,7 @@ theorem xqReply_holdOut (st : Static) (c c' : Ctx) (svc : Bytes) (reply : Option
           dsimp only at h
           split at h
           · exact xqFinish_holdOut st i _ _ _ _
-              (xqVouch_hold c _ stamp (hp.congr (cli' := { cli with ok := maskAdd cli.ok i }) rfl rfl) (okStamp_some hok)) hc h
+              (xqVouch_hold c _ stamp (hp.congr (cli' := { cli with ok := maskAdd cli.ok i }) rfl rfl) hl (okStamp_some hok)) hc h
           · exact xqFinish_holdOut st i _ _ _ _ (hp.congr (cli' := { cli with ok := maskAdd cli.ok i }) rfl rfl) hc h
         · split at h
           · exact Or.inl (kill_spec _ _ _ h).2
@@ -470,7 +471,7 @@ theorem dropReq_hold {s s' : State} {req? : Option Req} {c : String} {out : List
     exact withReq_pred (f := fun ctx => pure (finishReq ctx)) hh (fun c' hc => by
       simp only [pure, Except.pure, Except.ok.injEq] at hc; subst hc; exact Or.inl rfl) h
 
-theorem onReply_hold {s s' : State} {l : Line} {isX : Bool} {out : List Bytes} (hh : HInv s)
+theorem onReply_hold {s s' : State} {l : Line} {isX : Bool} {out : List Bytes} (hi : Inv s) (hh : HInv s)
     (h : onReply s l isX = .ok (s', out)) : HInv s' := by
   unfold onReply at h
   split at h
@@ -478,7 +479,7 @@ theorem onReply_hold {s s' : State} {l : Line} {isX : Bool} {out : List Bytes} (
   · split at h
     · simp only [pure, Except.pure, Except.ok.injEq, Prod.mk.injEq] at h; obtain ⟨rfl, _⟩ := h; exact hh
     · rename_i r hv
-      exact withReq_pred hh (fun c' hc => xqReply_holdOut _ _ _ _ _ (hh r (validateRequest_mem hv)) hc) h
+      exact withReq_pred hh (fun c' hc => xqReply_holdOut _ _ _ _ _ (hh r (validateRequest_mem hv)) hi.accPos hc) h
 
 theorem newClient_hold {s s' : State} {id : Int} {a p : Bytes} {out : List Bytes} (hi : Inv s) (hh : HInv s)
     (h : newClient s id a p = .ok (s', out)) : HInv s' := by
@@ -555,10 +556,10 @@ theorem dispatch_hold {s s' : State} {l : Line} {cmd : UInt8} {req? : Option Req
   · rw [if_pos c10] at h; exact dropReq_hold hh h
   rw [if_neg c10] at h
   by_cases c11 : (cmd == 88) = true
-  · rw [if_pos c11] at h; exact onReply_hold hh h
+  · rw [if_pos c11] at h; exact onReply_hold hi hh h
   rw [if_neg c11] at h
   by_cases c12 : (cmd == 120) = true
-  · rw [if_pos c12] at h; exact onReply_hold hh h
+  · rw [if_pos c12] at h; exact onReply_hold hi hh h
   rw [if_neg c12] at h
   by_cases c13 : (cmd == 63) = true
   · rw [if_pos c13] at h
